@@ -77,6 +77,16 @@ Theorem C12_too_many_dims_rejected (num : bool) (sh : list nat) (d : nat) (ans a
   4 <= length sh -> check_n_sequences (DArr num sh) (Some [d]) ans ani ats = RErr ValueError.
 Proof. exact (cns_too_many_dims num sh d ans ani ats). Qed.
 
+(* a multi-input node (Concat: input_dim is a tuple) rejects a list with the wrong number of inputs (since 7992b77) *)
+Theorem C12_wrong_input_count_rejected (n : node) (o : op) (items : list data) (ed : list nat) :
+  supported (nkind n) o = true -> input_dim n = Some ed -> op_x o = DList items ->
+  2 <= length ed -> length items <> length ed ->
+  exists e n', step n o = Err PCheck e n' /\ same_node n n'.
+Proof.
+  intros S I X L N. apply bad_input_rejected; [exact S|]. intros ans ani ats. rewrite X, I.
+  exists ValueError. exact (cns_wrong_input_count items ed ans ani ats L N).
+Qed.
+
 (* 5. Accepted input of T timesteps yields exactly T rows of width output_dim (run, call, train). *)
 Theorem C12_rows (n n' : node) (x : data) (out : option (nat * nat)) :
   wf n -> step n (ORun x) = Ok n' out -> exists w, output_dim n' = Some w /\ out = Some (timesteps x, w).
@@ -190,6 +200,7 @@ Print Assumptions C12_non_array_rejected.
 Print Assumptions C12_wrong_target_rejected.
 Print Assumptions C12_dimension_test_exact.
 Print Assumptions C12_too_many_dims_rejected.
+Print Assumptions C12_wrong_input_count_rejected.
 Print Assumptions C12_rows.
 Print Assumptions C12_rows_call.
 Print Assumptions C12_rows_train.
